@@ -119,12 +119,15 @@ def _one(rec, phi, rng, idx):
     from rnapolis import tertiary, tertiary_v2
 
     l1, l2, l3 = (rng.uniform(0.8, 2.5) for _ in range(3))
+    # other units of length (nm, pm, scaled models): the angle does not depend on bond lengths
+    scale = rng.choice([1.0, 1.0, 1.0, 1.0, 0.01, 0.1, 10.0, 100.0, 1000.0])
+    l1, l2, l3 = l1 * scale, l2 * scale, l3 * scale
     th1, th2 = (math.radians(rng.uniform(20, 160)) for _ in range(2))
     pts = geom.build_dihedral(phi, l1, l2, l3, th1, th2)
     ref, margin = geom.dihedral(*pts)
     rec.check("builder.reference-self-check", geom.wrapdiff(ref, phi) <= 1e-12, lambda: {"phi": phi, "ref": ref})
     R = geom.random_rotation(rng)
-    t = np.array([rng.uniform(-500, 500) for _ in range(3)]) if rng.random() < 0.7 else np.zeros(3)
+    t = np.array([rng.uniform(-500, 500) for _ in range(3)]) * min(1.0, scale) if rng.random() < 0.7 else np.zeros(3)
     moved = [R @ p + t for p in pts]
     M = np.diag([1.0, 1.0, -1.0])
     mirrored = [R @ (M @ p) + t for p in pts]
@@ -149,6 +152,50 @@ def _one(rec, phi, rng, idx):
         if bad and geom.wrapdiff(out["v1"], -out["v2"]) <= TOL:
             mech = "implementations-differ-by-sign"
         rec.check("agree.v1-v2", not bad, lambda: {"phi": phi, "v1": out["v1"], "v2": out["v2"]}, mechanism=mech)
+
+
+def _chi_reference(r):
+    """IUPAC chi from the residue's own atoms: O4'-C1'-N9-C4 for a purine (a base with N9), O4'-C1'-N1-C2
+    otherwise.  Purine or pyrimidine is decided by the atoms present, not by any name the library derived."""
+    by = {}
+    for a in r.atoms:
+        by.setdefault(a.name, a)
+    names = ["O4'", "C1'", "N9", "C4"] if "N9" in by else ["O4'", "C1'", "N1", "C2"]
+    if any(n not in by for n in names):
+        return None, 0.0
+    return geom.dihedral(*[(by[n].x, by[n].y, by[n].z) for n in names])
+
+
+def _without_canonical_sequence(path):
+    """The same mmCIF text without _entity_poly.pdbx_seq_one_letter_code_can (files written by refinement and
+    modelling software often carry only the plain one-letter code, in which modified residues are spelled
+    '(PSU)'); None when the item is absent or not a one-line value."""
+    import re
+
+    text = open(path).read()
+    new, k = re.subn(r"(?m)^_entity_poly\.pdbx_seq_one_letter_code_can[ \t]+\S+[ \t]*\n", "", text)
+    return new if k == 1 else None
+
+
+def _chi_of_file(path, rec, what):
+    from rnapolis import parser
+    from rnapolis.common import GlycosidicBond
+
+    with open(path) as f:
+        s3 = parser.read_3d_structure(f, 1)
+    for r in s3.residues:
+        if not r.is_nucleotide:
+            continue
+        ref, margin = _chi_reference(r)
+        if ref is None or margin < 1e-3:
+            continue
+        try:
+            chi = r.chi
+        except Exception as e:
+            rec.violation("chi.no-crash", {"residue": r.full_name, "exception": repr(e), "input": what}, mechanism=f"crash:{type(e).__name__}")
+            continue
+        ok = chi is not None and not math.isnan(chi) and geom.wrapdiff(chi, ref) <= TOL
+        rec.check("chi.equals-own-glycosidic-dihedral", ok, lambda: {"residue": r.full_name, "one-letter": r.one_letter_name, "chi": chi, "reference": ref, "input": what})
 
 
 def run_case(case, rec):
@@ -203,12 +250,8 @@ def run_case(case, rec):
         except Exception as e:
             rec.violation("chi.no-crash", {"residue": r.full_name, "exception": repr(e)}, mechanism=f"crash:{type(e).__name__}")
             continue
-        names = ["O4'", "C1'", "N9", "C4"] if r.one_letter_name.upper() in "AG" else ["O4'", "C1'", "N1", "C2"]
-        atoms = [r.find_atom(n) for n in names]
-        if any(a is None for a in atoms):
-            continue
-        ref, margin = geom.dihedral(*[(a.x, a.y, a.z) for a in atoms])
-        if margin < 1e-3:
+        ref, margin = _chi_reference(r)
+        if ref is None or margin < 1e-3:
             continue
         nchi += 1
         # anti region: outside (-30, 120) degrees; A-form sits near -160
@@ -216,6 +259,19 @@ def run_case(case, rec):
             rec.check("chi.anti-for-A-form", cls == GlycosidicBond.anti and geom.wrapdiff(chi, ref) <= TOL,
                       lambda: {"residue": r.full_name, "chi": chi, "reference": ref, "class": str(cls)})
     rec.mark_nontrivial(nchi > 0)
+    # the same file without the canonical one-letter sequence item
+    if case["file"].endswith(".cif"):
+        alt = _without_canonical_sequence(path)
+        if alt is not None:
+            from vmon import emit
+
+            sp = emit.scratch_path(".cif")
+            with open(sp, "w") as fh:
+                fh.write(alt)
+            _cur["ctx"] = "chi, input without pdbx_seq_one_letter_code_can"
+            _chi_of_file(sp, rec, case["file"] + " without _entity_poly.pdbx_seq_one_letter_code_can")
+    _cur["ctx"] = "chi"
+    _chi_of_file(path, rec, case["file"])
     # the same identifiers with other coordinates in the same process (second conformer of
     # the same molecule): every torsion call is judged against the atoms' own x/y/z
     from vmon import gen3d as _g3
@@ -240,12 +296,8 @@ def run_case(case, rec):
     for r in s3c.residues:
         if not r.is_nucleotide:
             continue
-        names = ["O4'", "C1'", "N9", "C4"] if r.one_letter_name.upper() in "AG" else ["O4'", "C1'", "N1", "C2"]
-        atoms = [r.find_atom(n) for n in names]
-        if any(a is None for a in atoms):
-            continue
-        ref, margin = geom.dihedral(*[(a.x, a.y, a.z) for a in atoms])
-        if margin < 1e-3:
+        ref, margin = _chi_reference(r)
+        if ref is None or margin < 1e-3:
             continue
         try:
             chi = r.chi
